@@ -146,7 +146,14 @@ var textWordPool = []string{
 	// compatibility characters WITHOUT a lower-case mapping of their own whose NFKC form has upper-case letters
 	// (normalise first, lower-case second), next to their plain spellings
 	"™", "tm", "№", "no", "ℌ", "h", "ᴬ", "㎒", "mhz",
+	// long tokens (identifiers, hashes): 65 and 150 bytes - readers that treat short and long strings differently
+	longToken65, longToken150,
 }
+
+var (
+	longToken65  = "id" + strings.Repeat("0123456789abcdef", 4)[:63]
+	longToken150 = "tok" + strings.Repeat("abcdefghij0123456789", 8)[:147]
+)
 
 var textSeps = []string{" ", " ", " ", "  ", "\t", ", ", " - ", "\n", ""}
 
